@@ -83,6 +83,13 @@ func (c14) Gen(r *rand.Rand, tier string, run int) *core.Case {
 			total++
 		}
 	}
+	if r.IntN(3) == 0 {
+		// the object's other property, written by the service alone and read
+		// back at once: writes to one property must not touch the other
+		for i := 0; i < 2+r.IntN(4); i++ {
+			c.Ops = append(c.Ops, core.Op{Kind: "gauge", Actor: 67, X: int64(500 + i)})
+		}
+	}
 	var lastUpdate int64
 	for i := 0; i < updates; i++ {
 		if lastUpdate != 0 && r.IntN(3) == 0 {
@@ -363,6 +370,16 @@ func (c14) Run(c *core.Case, env *core.Env) {
 					h := env.Invoke(a, "set", strconv.Itoa(int(op.X)))
 					err := direct.SetLevel(int32(op.X))
 					env.Return(h, "", err)
+				case "gauge":
+					h := env.Invoke(a, "gauge", strconv.Itoa(int(op.X)))
+					err := targetImpl.Helper.UpdateGauge(int32(op.X))
+					out := ""
+					if err == nil {
+						var v int32
+						v, err = p.GetGauge()
+						out = strconv.Itoa(int(v))
+					}
+					env.Return(h, out, err)
 				case "update":
 					h := env.Invoke(a, "update", strconv.Itoa(int(op.X)))
 					err := targetImpl.Helper.UpdateLevel(int32(op.X))
@@ -403,6 +420,13 @@ func (c14) Check(c *core.Case, env *core.Env, res zzsim.Result, v *core.Verdict)
 				// nothing is wrong with the connection and the validator
 				// accepts the value: the write has no reason to fail
 				bad("valid-write-refused", "a well-typed write the validator accepts failed on a healthy connection: %s", h)
+			}
+		case "gauge":
+			// single writer: what it has just written is what it reads
+			if !h.OK && !containsStr(h.Err, "victim-broken") && !containsStr(h.Err, "consumer blocked") {
+				bad("other-property/failed", "writing and reading the object's second property failed: %s", h)
+			} else if h.OK && h.Out != h.Arg {
+				bad("other-property/reverted", "the object's second property was written %s by its only writer and read back %s at once", h.Arg, h.Out)
 			}
 		case "set-rejected":
 			if h.OK {
